@@ -384,9 +384,10 @@ Qed.
 
 Lemma spec_wf_mono n m sp : n <= m -> spec_wf n sp = true -> spec_wf m sp = true.
 Proof.
-  intros Hnm. unfold spec_wf. rewrite !andb_true_iff. intros [[[[H1 H2] H3] H4] H5].
+  intros Hnm. unfold spec_wf. rewrite !andb_true_iff. intros [[[[[H1 H2] H3] H4] H5] H6].
   repeat split; try (eapply cmds_wf_mono; eassumption).
-  apply forallb_forall. intros kv Hkv. rewrite forallb_forall in H4. eapply cmds_wf_mono; [exact Hnm|]. apply H4. exact Hkv.
+  - apply forallb_forall. intros kv Hkv. rewrite forallb_forall in H4. eapply cmds_wf_mono; [exact Hnm|]. apply H4. exact Hkv.
+  - apply forallb_forall. intros l Hl. rewrite forallb_forall in H6. eapply cmds_wf_mono; [exact Hnm|]. apply H6. exact Hl.
 Qed.
 
 Lemma saction_wf_mono n m a : n <= m -> saction_wf n a = true -> saction_wf m a = true.
